@@ -269,13 +269,19 @@ func (k *packKind) fillAll(r *vlib.Rand, p udp.UdpPack) {
 	}
 }
 
-// fillResidue is fillAll for the pool histories: no field is left at a value that could be
-// mistaken for "blank" (every string non-empty, every number ≥ 2, every container
-// non-empty, every pointer set), and existing maps are written INTO, as Process() does.
-func (k *packKind) fillResidue(r *vlib.Rand, p udp.UdpPack) {
+// fillResidue is the fill of the pool histories. It stores into the fields selected by mask
+// (nil = every field) and leaves the others as they are (blank, on a pack that came out of
+// the pool clean). No selected field is left at a value that could be mistaken for "blank":
+// every string non-empty, every number at least 2 in magnitude (a quarter of them negative,
+// some over the whole width of the field), every container non-empty, every pointer set;
+// existing maps are written INTO, as Process() does. Booleans are drawn (false is blank).
+func (k *packKind) fillResidue(r *vlib.Rand, p udp.UdpPack, mask []bool) {
 	f := &filler{r: r, longLeft: 0}
 	e := elemOf(p)
 	for i := range k.Fields {
+		if mask != nil && !mask[i] {
+			continue
+		}
 		fi := &k.Fields[i]
 		fv := e.FieldByIndex(fi.Index)
 		switch fi.Type.Kind() {
@@ -284,7 +290,17 @@ func (k *packKind) fillResidue(r *vlib.Rand, p udp.UdpPack) {
 		case reflect.Bool:
 			fv.SetBool(r.Bool())
 		case reflect.Int64, reflect.Int32, reflect.Int16, reflect.Int:
-			fv.SetInt(int64(2 + r.Intn(30000)))
+			v := int64(2 + r.Intn(30000))
+			switch r.Intn(8) {
+			case 0, 1:
+				v = -v
+			case 2:
+				sh := uint(64 - fi.Type.Bits())
+				if w := r.I64() << sh >> sh; w < -1 || w > 1 {
+					v = w
+				}
+			}
+			fv.SetInt(v)
 		case reflect.Slice:
 			switch fi.Type.Elem().Kind() {
 			case reflect.Uint8:
@@ -323,6 +339,65 @@ func (k *packKind) fillResidue(r *vlib.Rand, p udp.UdpPack) {
 			fv.Set(f.value(fi.Type, 0))
 		}
 	}
+}
+
+// fillPlan draws which fields one fill of a pool history stores into. A Clear() that resets
+// a field only under a condition on ANOTHER field (set / not set) is invisible to fills that
+// always populate everything, so the plan is drawn over the whole power set of the fields:
+//
+//	all          every field                                        (~12 %)
+//	single       exactly one field                                  (~15 %)
+//	all-but-one  every field except one                             (~8 %)
+//	own-subset   the embedded AbstractPack part left blank, each of
+//	             the pack's own fields with probability q            (~15 %)
+//	subset       each field independently with probability q        (the rest)
+//
+// with q drawn per fill from 0.25, 0.5, 0.6, 0.7. An empty draw becomes a single field.
+func (k *packKind) fillPlan(r *vlib.Rand) (mode string, mask []bool, names []string) {
+	n := len(k.Fields)
+	mask = make([]bool, n)
+	x := r.Intn(100)
+	switch {
+	case x < 12:
+		mode = "all"
+		for i := range mask {
+			mask[i] = true
+		}
+	case x < 27:
+		mode = "single"
+		mask[r.Intn(n)] = true
+	case x < 35:
+		mode = "all-but-one"
+		for i := range mask {
+			mask[i] = true
+		}
+		mask[r.Intn(n)] = false
+	default:
+		mode = "subset"
+		own := x < 50
+		if own {
+			mode = "own-subset"
+		}
+		q := []int{25, 50, 60, 70}[r.Intn(4)]
+		any := false
+		for i := range mask {
+			hit := r.Intn(100) < q // drawn for every field: the stream does not depend on the mode
+			if own && len(k.Fields[i].Index) > 1 {
+				hit = false
+			}
+			mask[i] = hit
+			any = any || hit
+		}
+		if !any {
+			mask[r.Intn(n)] = true
+		}
+	}
+	for i, m := range mask {
+		if m {
+			names = append(names, k.Fields[i].Name)
+		}
+	}
+	return
 }
 
 // ---- alternates for the carried measurement -----------------------------------------------
